@@ -452,7 +452,7 @@ func TestVerifC31Programs(t *testing.T) {
 	g := 1
 	switch c.Lane {
 	case "race", "checkptr":
-		n = uint64(c.N(20_000, 400_000))
+		n = uint64(c.N(20_000, 200_000))
 		g = 2
 	case "asan":
 		n = uint64(c.N(20_000, 300_000))
